@@ -18,9 +18,12 @@ class Deadlock(Exception):
 
 
 class Sched:
-    def __init__(self, want_code, block_timeout=0.15, hard_timeout=30.0):
-        """want_code(code) -> bool: trace line events of frames running this code object"""
+    def __init__(self, want_code, block_timeout=0.15, hard_timeout=30.0, want_call=None):
+        """want_code(code) -> bool: trace line events of frames running this code object;
+        want_call(code) -> bool: a yield point at the entry of every call of this code object (function-call granularity)"""
         self.want_code = want_code
+        self.want_call = want_call
+        self._ccache = {}
         self.block_timeout = block_timeout
         self.hard_timeout = hard_timeout
         self._cache = {}
@@ -48,8 +51,17 @@ class Sched:
                 return local
 
             def glob(frame, event, arg):
-                if event == "call" and self._wanted(frame.f_code):
-                    return local
+                if event == "call":
+                    code = frame.f_code
+                    if self.want_call is not None and not free_run[i]:
+                        w = self._ccache.get(code)
+                        if w is None:
+                            w = self._ccache[code] = bool(self.want_call(code))
+                        if w:
+                            events.put((i, "arrive", (code.co_name, "call")))
+                            go[i].acquire()
+                    if self._wanted(code):
+                        return local
                 return None
             return glob
 
